@@ -219,3 +219,5 @@ SUBS = [
     Sub("amount", lambda tier: amount_cases(tier), check_amount, quick=900, thorough=6000),
     Sub("min_frequency", lambda tier: min_frequency_cases(tier), check_min_frequency, quick=500, thorough=3000),
 ]
+
+RULE += ' Also: amounts that are almost integral (refused); int64 counts beyond 2^53.'
